@@ -799,7 +799,7 @@ func genManyRestrictions(r *rng) *Model {
 // ':', '#', '@' and whitespace): "a,b" next to "a" and "b", as types, public
 // types and relations.
 func genOddNames(r *rng) *Model {
-	sep := []string{",", "|", ";", "+", "=", "$", "~", "!"}[r.intn(8)]
+	sep := []string{",", ",", ",", "|", ";", "+", "=", "$", "~", "!"}[r.intn(10)] // "," is what code joins lists with
 	a, b := "a", "b"
 	if r.chance(40) {
 		a, b = "Repo", "Role" // upper case, prefixes of library-internal markers such as "R#"
